@@ -51,7 +51,7 @@ class SArr(np.ndarray):
 
 
 def _wrap_value(v):
-    if _isinstance(v, (SV, SC_TYPES)):
+    if _isinstance(v, (SV, SC_TYPES)) or type(v).__name__ == 'Jet':
         return v
     if _isinstance(v, (bool, np.bool_)):
         return v
@@ -99,7 +99,7 @@ def to_obj(a):
 
 
 def has_sv(x):
-    if _isinstance(x, (SV,) + SC_TYPES):
+    if _isinstance(x, (SV,) + SC_TYPES) or type(x).__name__ == 'Jet':
         return True
     if _isinstance(x, np.ndarray):
         return x.dtype == object
@@ -121,7 +121,7 @@ def oarr(x):
         return to_obj(x)
     if _isinstance(x, np.ndarray):
         return to_obj(x.astype(_float)) if x.dtype != bool else x
-    if _isinstance(x, (SV,) + SC_TYPES):
+    if _isinstance(x, (SV,) + SC_TYPES) or type(x).__name__ == 'Jet':
         a = np.empty((), dtype=object)
         a[()] = x
         return a
@@ -156,7 +156,7 @@ def _method(name):
 
 
 def _as_scalar(v):
-    if _isinstance(v, (SV,) + SC_TYPES):
+    if _isinstance(v, (SV,) + SC_TYPES) or type(v).__name__ == 'Jet':
         return v
     if _isinstance(v, complex):
         from .cplx import SC
@@ -366,6 +366,8 @@ class NP:
     def sign(self, a):
         def f(v):
             v = _as_scalar(v)
+            if type(v).__name__ == 'Jet':
+                return SV(1.0) if v > 0 else (SV(-1.0) if v < 0 else SV(0.0))
             if not v.sym:
                 return SV(_float(np.sign(v.c)))
             if v < 0:
@@ -385,19 +387,21 @@ class NP:
         return r.astype(bool) if _isinstance(r, np.ndarray) else bool(r)
 
     def isinf(self, a):
-        r = self._pred(a, lambda v: _isinstance(v, SV) and (not v.sym) and math.isinf(v.c))
+        r = self._pred(a, lambda v: (_isinstance(v, SV) and (not v.sym) and math.isinf(v.c)) or
+                       (type(v).__name__ == 'Jet' and any((not c.sym) and math.isinf(c.c) for c in v.a)))
         return np.isinf(a) if r is None else r
 
     def isnan(self, a):
-        r = self._pred(a, lambda v: _isinstance(v, SV) and (not v.sym) and math.isnan(v.c))
+        r = self._pred(a, lambda v: (_isinstance(v, SV) and (not v.sym) and math.isnan(v.c)) or
+                       (type(v).__name__ == 'Jet' and any((not c.sym) and math.isnan(c.c) for c in v.a)))
         return np.isnan(a) if r is None else r
 
     def isfinite(self, a):
-        r = self._pred(a, lambda v: (not _isinstance(v, SV)) or v.sym or math.isfinite(v.c))
+        r = self._pred(a, lambda v: v.finite() if type(v).__name__ == 'Jet' else ((not _isinstance(v, SV)) or v.sym or math.isfinite(v.c)))
         return np.isfinite(a) if r is None else r
 
     def isscalar(self, x):
-        return _isinstance(x, (SV,) + SC_TYPES) or np.isscalar(x)
+        return _isinstance(x, (SV,) + SC_TYPES) or type(x).__name__ == 'Jet' or np.isscalar(x)
 
     def size(self, a, axis=None):
         if _isinstance(a, (SV,) + SC_TYPES):
@@ -584,6 +588,8 @@ NPX = NP()
 
 def sym_float(x=0.0):
     """shadow of builtins.float inside optiland modules"""
+    if type(x).__name__ == 'Jet':
+        return x
     if _isinstance(x, SV):
         return SV(x.c, x.t, py=True)
     if _isinstance(x, np.ndarray) and x.dtype == object:
@@ -606,7 +612,7 @@ sym_float.__name__ = 'float'
 def sym_isinstance(o, t):
     ts = t if _isinstance(t, tuple) else (t,)
     ts = tuple(_float if x is sym_float else x for x in ts)
-    if _isinstance(o, SV) and (_float in ts):
+    if (_isinstance(o, SV) or type(o).__name__ == 'Jet') and (_float in ts):
         return True
     return _isinstance(o, ts)
 
